@@ -189,7 +189,8 @@ fn delimiter_case(rng: &mut Rng, i: usize) -> Case {
 /// RANDOM order — sub-interface before / after its parents, unrelated interfaces in between and after), a third of them
 /// written with `extend …` items (so `implements` lists are partly appended by extensions). The possible types of EVERY
 /// interface are compared in both files (K on the trees; O: `__resolveType` unions against the abstract model in every
-/// case, the membership tables of all four namespaces in one case of three).
+/// case, the possible types of every interface and union in both output namespaces of the schema file in every case, the
+/// membership tables of all four namespaces in one case of twelve).
 fn hierarchy_case(rng: &mut Rng, i: usize) -> (Case, BTreeSet<String>) {
     let cfg = GenCfg { hostile_text: false, descriptions: i % 4 == 1, iface_hierarchies: true, ..GenCfg::default() };
     let schema = gen_schema(rng, &cfg);
@@ -203,7 +204,7 @@ fn hierarchy_case(rng: &mut Rng, i: usize) -> (Case, BTreeSet<String>) {
         schema.sdl()
     };
     let feats = iface_shape_features(&schema);
-    (Case { sdl, cfg: CfgCase::from_project(&pc), origin, model: Some(with_builtin_scalars(&schema.doc)), model_sdl: Some(schema.sdl()), light: i % 3 != 0 }, feats)
+    (Case { sdl, cfg: CfgCase::from_project(&pc), origin, model: Some(with_builtin_scalars(&schema.doc)), model_sdl: Some(schema.sdl()), light: i % 12 != 0 }, feats)
 }
 
 fn doc_tokens(text: &str) -> Option<Vec<String>> {
@@ -332,6 +333,60 @@ fn check_resolvers(rep: &mut Report, view: &SchemaView, file: &Sexp, case: &Case
     for (k, _, _) in &fields {
         if !known.contains(k) {
             rep.fail("O", "resolvers:unknown-entry", &format!("Resolvers has an entry {k} that is not a schema type"), case.to_json());
+        }
+    }
+}
+
+/// O (structural, cheap — runs in every case, text-level ones included): in both output namespaces of the REAL schema
+/// declaration file the alias of EVERY interface and union is the union of references to exactly its possible object types
+/// per the abstract model (`never` when there is none). What the referenced names denote is the membership tables' subject;
+/// an alias of another shape is left to them (counted).
+fn check_schema_possible_types(rep: &mut Report, view: &SchemaView, file: &Sexp, case: &Case) {
+    for ns in file.args().iter().filter(|s| s.head() == Some("namespace")) {
+        let ns_name = ns.args().get(1).and_then(|n| n.as_str()).unwrap_or("").to_string();
+        let Some((tg, _)) = TARGETS.iter().find(|t| t.1 == ns_name) else { continue };
+        let Some(stmts) = ns.args().get(2).and_then(|x| x.as_list()) else { continue };
+        for t in view.type_defs() {
+            if !matches!(t.kind, TypeKind::Interface | TypeKind::Union) || !kind_fits(t.kind, tg) {
+                continue;
+            }
+            let kind = t.kind.as_str();
+            rep.o_cases += 1;
+            // (a type whose name clashes with an identifier of a scalar text is declared as `__tmp_<Name>` and re-exported)
+            let tmp_name = format!("__tmp_{}", t.name);
+            let decl = stmts.iter().find(|s| s.head() == Some("type") && matches!(s.args().get(1).and_then(|n| n.as_str()), Some(n) if n == t.name || n == tmp_name));
+            let Some(decl) = decl else {
+                rep.fail("O", &format!("schema-file:{kind}:missing"), &format!("namespace {ns_name} declares no type {}", t.name), case.to_json());
+                continue;
+            };
+            let body = &decl.args()[3];
+            let name_of = |r: &Sexp| -> Option<String> {
+                if r.head() == Some("ref") {
+                    r.args().first().and_then(|s| s.as_str()).map(|s| s.strip_prefix("__tmp_").unwrap_or(s).to_string())
+                } else {
+                    None
+                }
+            };
+            let got: Option<BTreeSet<String>> = match body.head() {
+                Some("ref") => name_of(body).map(|n| BTreeSet::from([n])),
+                Some("union") => body.args().iter().map(name_of).collect(),
+                Some("prim") if body.args().first().and_then(|s| s.as_str()) == Some("never") => Some(BTreeSet::new()),
+                _ => None,
+            };
+            let want: BTreeSet<String> = view.possible(&t.name).into_iter().collect();
+            match got {
+                None => rep.count("schema-file:abstract-alias-of-another-shape(left to the membership tables)"),
+                Some(got) => {
+                    if got != want {
+                        rep.fail(
+                            "O",
+                            &format!("schema-file:{kind}:possible-types"),
+                            &format!("namespace {ns_name}: `export type {}` is the union of {got:?}, the possible object types of the {kind} are {want:?}", t.name),
+                            case.to_json(),
+                        );
+                    }
+                }
+            }
         }
     }
 }
@@ -690,10 +745,14 @@ fn run_case(rep: &mut Report, drv: &mut Driver, case: &Case) {
         }
     }
     if case.light {
-        // text-level comparisons only; the structural check of `Resolvers` against the abstract model still runs
+        // text-level comparisons only; the structural checks of `Resolvers` and of the abstract aliases of the schema file
+        // against the abstract model still run
+        let view = SchemaView { doc: &ref_doc, scalar_sample: BTreeMap::new(), optional: case.cfg.optional.unwrap_or(true) };
         if let Some(rt) = &real_resolvers {
-            let view = SchemaView { doc: &ref_doc, scalar_sample: BTreeMap::new(), optional: case.cfg.optional.unwrap_or(true) };
             check_resolvers(rep, &view, rt, case);
+        }
+        if let Some(st) = &real_tree {
+            check_schema_possible_types(rep, &view, st, case);
         }
         rep.count("mode:text-level-only");
         return;
@@ -737,6 +796,7 @@ fn run_case(rep: &mut Report, drv: &mut Driver, case: &Case) {
     let Some(real_tree) = real_tree else {
         return;
     };
+    check_schema_possible_types(rep, &view, &real_tree, case);
     let tags: Vec<String> = all_tags.into_iter().collect();
     let base = base_values(&view, &tags);
     let mut values = base.clone();
@@ -897,15 +957,23 @@ fn main() {
         run_case(&mut rep, &mut drv, &c);
     }
     // stream "interface hierarchies" (own random stream: the streams above are unchanged)
+    let t_hier = std::time::Instant::now();
     let mut rng = Rng::new(args.seed ^ 0xC10_1FACE);
-    let n = args.budget(45, 500) * boost;
+    let n = args.budget(60, 600) * boost;
     for i in 0..n {
         let (c, feats) = hierarchy_case(&mut rng, i);
         rep.count("origin:interface-hierarchy");
         for f in feats {
             rep.count(&format!("feature:hier:{f}"));
         }
+        let t_case = std::time::Instant::now();
         run_case(&mut rep, &mut drv, &c);
+        if std::env::var("NV_TIMING").map_or(false, |v| v == "2") {
+            eprintln!("  {} light={} sdl={}B {:?}", c.origin, c.light, c.sdl.len(), t_case.elapsed());
+        }
+    }
+    if std::env::var("NV_TIMING").is_ok() {
+        eprintln!("interface-hierarchy stream: {n} cases in {:?}", t_hier.elapsed());
     }
     rep.write(&args);
 }
